@@ -57,6 +57,8 @@ func ruleMINIMIZE(c *Ctx) {
 			"lhs": "r.LHS", "length": "t.RuleLen[", "action": "r.Action", "typ": "r.Type", "flags": "r.Flags",
 		}
 		got := map[string]string{}
+		storeBlk := map[string]*ssa.BasicBlock{}
+		var keyAlloc *ssa.Alloc
 		for _, b := range f.Blocks {
 			for _, ins := range b.Instrs {
 				st, ok := ins.(*ssa.Store)
@@ -67,10 +69,29 @@ func ruleMINIMIZE(c *Ctx) {
 				if !ok {
 					continue
 				}
-				if al, ok := fa.X.(*ssa.Alloc); !ok || !strings.Contains(al.Type().String(), "ruleKey") {
+				al, ok := fa.X.(*ssa.Alloc)
+				if !ok || !strings.Contains(al.Type().String(), "ruleKey") {
 					continue
 				}
+				keyAlloc = al
 				got[fieldName(fa.X.Type(), fa.Field)] = vpath(st.Val)
+				storeBlk[fieldName(fa.X.Type(), fa.Field)] = b
+			}
+		}
+		// every component is filled on every path to the class lookup
+		if keyAlloc != nil {
+			var useBlk *ssa.BasicBlock
+			for _, ref := range *keyAlloc.Referrers() {
+				if ld, ok := ref.(*ssa.UnOp); ok {
+					if useBlk == nil || ld.Block().Dominates(useBlk) {
+						useBlk = ld.Block()
+					}
+				}
+			}
+			for k, sb := range storeBlk {
+				if useBlk != nil && sb != useBlk && !sb.Dominates(useBlk) {
+					c.Bad(rule, "lalr.computeRuleClasses:ruleKey."+k+":unconditional", f.Pos(), "ruleKey.%s is filled only on some paths to the class lookup: on the other paths it is the zero value, which is also a legitimate %s (rules that differ in it share a class and their reduce states are merged)", k, k)
+				}
 			}
 		}
 		// the range value r is a copy of g.Rules[i]; its fields read as φ paths
